@@ -10,6 +10,8 @@ sorted list).  In "router" mode with pairwise distinct ranks both sides also pri
 import Drivers.Common
 import RioModel.Model.ActionJson
 import RioModel.Model.ActionTrace
+import RioModel.Model.IntoRoute
+import RioModel.Model.RouterJson
 open Lean Rio.Action Rio.Action.Codec
 
 def parseHeaderPair (j : Json) : Except String Rio.Header.Header := do
@@ -17,7 +19,109 @@ def parseHeaderPair (j : Json) : Except String Rio.Header.Header := do
   | .arr #[n, v] => return ⟨← fromJson? n, ← fromJson? v⟩
   | _ => throw "header pair"
 
+/-! ### second case kind: `{"kind":"into_route","cfg":…,"src":…}` — `Rule::into_route` against
+Model/IntoRoute.lean with the standard parsers; observation = the fields of the route. -/
+
+namespace IR
+open Rio.Router Rio.IntoRoute
+
+def bytesOf (s : String) : Rio.Url.Bytes := s.toUTF8.toList.map (·.toNat)
+
+def optStr (j : Json) (k : String) : Except String (Option String) := J.opt? j k J.str
+
+def rangeSrc (j : Json) : Except String RangeSource := do
+  match j with
+  | .arr #[a, b] =>
+    let get (x : Json) : Except String (Option String) :=
+      match x with
+      | .null => pure none
+      | v => v.getStr?.map some
+    return (← get a, ← get b)
+  | _ => throw "range: expected [start, end]"
+
+def ipSrc (j : Json) : Except String IpSource := do
+  return ⟨← J.field j "neg" J.bool, ← J.field j "range" J.str⟩
+
+def src (j : Json) : Except String RuleSource := do
+  return {
+    id := ← J.field j "id" J.str
+    rank := ← J.field j "rank" J.nat
+    scheme := ← optStr j "scheme"
+    host := ← optStr j "host"
+    path := bytesOf (← J.field j "path" J.str)
+    query := (← optStr j "query").map bytesOf
+    markers := ((← optStr j "markers").getD "").toList
+    ips := ← J.opt? j "ips" (J.arr ipSrc)
+    methods := ← J.opt? j "methods" (J.arr J.str)
+    excludeMethods := ← J.opt? j "exclude" J.bool
+    headers := ← J.opt? j "headers" (J.arr J.headerDesc)
+    datetime := ← J.opt? j "datetime" (J.arr rangeSrc)
+    time := ← J.opt? j "time" (J.arr rangeSrc)
+    weekdays := ← J.opt? j "weekdays" (J.arr J.str) }
+
+/-- `regex::escape` on one character (`regex_syntax::is_meta_character`). -/
+def escapeChar (c : Char) : List Char :=
+  if "\\.+*?()|[]{}^$#&-~".toList.contains c then ['\\', c] else [c]
+
+def clsRegex : Cls → String
+  | .digit => "[0-9]" | .lower => "[a-z]" | .notSlash => "[^/]" | .any => "."
+
+/-- `MarkerString.regex`: escaped literal text, `(?:regex)` per marker. -/
+def patRegex (p : Pat) : String :=
+  String.ofList (p.flatMap fun t =>
+    match t with
+    | .lit c => escapeChar c
+    | .plus c => ("(?:" ++ clsRegex c ++ "+)").toList
+    | .star c => ("(?:" ++ clsRegex c ++ "*)").toList)
+
+def jSod : SoD → Json
+  | .static s => Json.mkObj [("static", toJson s)]
+  | .dyn p => Json.mkObj [("dyn", toJson (patRegex p))]
+
+def jOpt {α : Type} (f : α → Json) : Option α → Json
+  | none => .null
+  | some a => f a
+
+def jHeader (h : RouteHeader) : Json :=
+  let (k, v) : String × Json := match h.kind with
+    | .isDefined => ("is_defined", .null)
+    | .isNotDefined => ("is_not_defined", .null)
+    | .isEquals v => ("is_equals", toJson v)
+    | .isNotEqualTo v => ("is_not_equal_to", toJson v)
+    | .contains v => ("contains", toJson v)
+    | .doesNotContain v => ("does_not_contain", toJson v)
+    | .endsWith v => ("ends_with", toJson v)
+    | .startsWith v => ("starts_with", toJson v)
+    | .matchRegex p => ("match_regex", toJson (patRegex p))
+  Json.arr #[toJson h.name, toJson k, v]
+
+def jIp (ip : RouteIp) : Json :=
+  let (neg, c) := match ip with
+    | .inRange c => (false, c)
+    | .notInRange c => (true, c)
+  Json.arr #[toJson neg, toJson c.v6, toJson c.base, toJson c.bits]
+
+def jRange (r : DRange) : Json := Json.arr #[jOpt toJson r.start, jOpt toJson r.stop]
+
 def handle (j : Json) : Except String Json := do
+  let cfg ← J.field j "cfg" J.cfg
+  let s ← J.field j "src" src
+  let r := intoRoute Parsers.std cfg s
+  let m := Json.mkObj [
+    ("id", toJson r.id), ("priority", toJson r.priority), ("scheme", jOpt toJson r.scheme),
+    ("methods", jOpt toJson r.methods), ("exclude", jOpt toJson r.excludeMethods),
+    ("host", jOpt jSod r.host), ("path", jSod r.path),
+    ("headers", Json.arr (r.headers.map jHeader).toArray),
+    ("ips", jOpt (fun l => Json.arr (l.map jIp).toArray) r.ips),
+    ("datetime", jOpt (fun l => Json.arr (l.map jRange).toArray) r.datetime),
+    ("time", jOpt (fun l => Json.arr (l.map jRange).toArray) r.time),
+    ("weekdays", jOpt toJson r.weekdays)]
+  return Json.mkObj [("m", m)]
+
+end IR
+
+def handle (j : Json) : Except String Json := do
+  if (Drv.str? j "kind").toOption == some "into_route" then return ← IR.handle j
   let rules ← parseRules j
   let q ← parseReq j
   let codes := (← Drv.arr? j "codes").toList
